@@ -147,6 +147,38 @@ def analyse(tag, sizes, unb, ratio=True):
     return sr
 
 
+def analyse_near(tag, sizes, num, den):
+    """series n x (n*num/den): every doubling of both lengths multiplies the work by at most 3.1, and the 4096-digit member
+    costs less than a quarter of its schoolbook count n*m"""
+    sr = runner.StageResult()
+    ws = {n: _W.get((tag, n, n * num // den)) for n in sizes}
+    if any(v is None or v == 0 for v in ws.values()):
+        sr.inconclusive.append('work counter missing for some sizes in %s' % tag)
+        return sr
+    for n in sizes[:-1]:
+        sr.evaluations += 1
+        ratio = ws[2 * n] / ws[n]
+        sr.cells.add((tag, 'ratio', n))
+        sr.samples.append({'shape': '%d x %d' % (n, n * num // den), 'W': ws[n], 'W(2n)/W(n)': round(ratio, 4)})
+        if ratio > 3.1:
+            pr = Problem('C20', 'doubling both lengths from %d x %d multiplied the work by %.3f (> 3.1; schoolbook = 4)' % (n, n * num // den, ratio),
+                         'W=%d -> %d' % (ws[n], ws[2 * n]))
+            pr.cmd = 'work %s %d' % (tag, 2 * n)
+            pr.variant = tag
+            sr.problems.append(pr)
+    if 4096 in ws:
+        m = 4096 * num // den
+        frac = ws[4096] / (4096 * m)
+        sr.cells.add((tag, 'quarter'))
+        sr.samples.append({'W(4096 x %d)/(n*m)' % m: round(frac, 4)})
+        if not frac < 0.25:
+            pr = Problem('C20', '4096 x %d digits costs %.3f of the schoolbook count (must be < 0.25 for about-equal lengths)' % (m, frac), 'W=%d' % ws[4096])
+            pr.cmd = 'work %s 4096' % tag
+            pr.variant = tag
+            sr.problems.append(pr)
+    return sr
+
+
 def stages(tier, seed):
     _W.clear()
     rel = [cmd_work(n, n, 'rel') for n in BAL] + [cmd_work(n, m, 'rel') for n, m in UNB] + [cmd_worksq(n, 'rel') for n in BAL]
@@ -157,11 +189,17 @@ def stages(tier, seed):
     dsz = [256, 512, 1024, 2048, 4096]
     dun = [(n, m) for n, m in UNB if n * m <= 300 * 64 * 300]
     dbg = [cmd_work(n, n, 'dbg') for n in dsz] + [cmd_work(n, m, 'dbg') for n, m in dun]
+    # about-equal (not exactly equal) lengths: n x 5n/4 and n x 29n/20; the doubling clause applies along each series and
+    # the absolute clause is scaled to the n*m count of that shape
+    for num, den, tg in ((5, 4, 'near125'), (29, 20, 'near145'), (21, 20, 'near105')):
+        rel += [cmd_work(n, n * num // den, 'rel-' + tg) for n in BAL[:6]]
     fsz = [1024, 2048, 4096]
     rel += [cmd_workf(f, n, 'rel') for f in FORMS + SQFORMS for n in fsz]
     # the configurations without std (the dispatch must not depend on the feature set)
     nostd = [cmd_work(n, n, 'nostd') for n in dsz] + [cmd_work(n, m, 'nostd') for n, m in dun] + [cmd_worksq(n, 'nostd') for n in dsz]
     extra = [dict(label='analyse-rel-form-' + f, custom=(lambda f=f: analyse('rel-' + f, fsz, []))) for f in FORMS + SQFORMS]
+    for num, den, tg in ((5, 4, 'near125'), (29, 20, 'near145'), (21, 20, 'near105')):
+        extra.append(dict(label='analyse-rel-form-' + tg, custom=(lambda num=num, den=den, tg=tg: analyse_near('rel-' + tg, BAL[:6], num, den))))
     extra += [dict(label='nostd-rel', variant='nostd-rel', groups=[nostd]),
               dict(label='analyse-nostd', custom=lambda: analyse('nostd', dsz, dun)),
               dict(label='analyse-nostd-squares', custom=lambda: analyse('nostd-sq', dsz, []))]
